@@ -68,6 +68,8 @@ def norm_fields(fs):
         if not v: continue
         if n in d and d[n] == v and n in (b"if-none-match", b"if-modified-since", b"content-type", b"http2-settings"):
             continue                               # an identical repeat of these is one field (http_request_parse_duplicate)
+        if n in d and n == b"if-none-match":
+            continue                               # "if dup, only the first one will survive" (a differing repeat of the other three is a 400)
         d[n] = d[n] + b", " + v if n in d else v
     return sorted(d.items())
 
@@ -328,7 +330,10 @@ def run_corruptions(ctx, exe, model):
             spec = [tuple(unhx(x) for x in f.split(".")) for f in do.split(",")] if do != "-" else []
             sp = dict((n, v) for n, v in spec if n.startswith(b":"))
             got = norm_fields([(k.lower(), v) for k, v, _, _ in fs if k.lower() != b"host"])
-            expf = norm_fields([(n, v) for n, v in spec if not n.startswith(b":")])
+            # a corrupted block can decode to a field name that is no token (trailing SP / CR); with header-strict off - the harness's request
+            # options - request.c drops such trailing bytes from the name (HTTP semantics, not HPACK): compare modulo that
+            expf = norm_fields([(n.rstrip(b" \t\r"), v) for n, v in spec if not n.startswith(b":")])
+            got = norm_fields([(k.rstrip(b" \t\r"), v) for k, v in got])
             if got != expf or tgt != sp.get(b":path", b""):
                 why = "handler saw %r target %r, the spec decoder reads %r target %r" % (got[:5], tgt, expf[:5], sp.get(b":path"))
         if why:
